@@ -21,6 +21,13 @@ import time
 VERIF = os.path.dirname(os.path.dirname(os.path.abspath(__file__)))
 COQ = os.path.join(VERIF, 'coq')
 REPO = os.environ.get('EMD_REPO', '/repo')
+if os.path.abspath(REPO) != '/repo':
+    # a scratch tree is under test (evaluation of a seeded change): the translators regenerate coq/gen from it, so the
+    # whole Coq tree of this run is a private copy - the shared one always corresponds to /repo
+    COQ = os.path.join(VERIF, '.work', 'coq-alt-' + hashlib.sha1(os.path.abspath(REPO).encode()).hexdigest()[:10])
+    os.makedirs(os.path.dirname(COQ), exist_ok=True)
+    subprocess.run(['rsync', '-a', '--delete', os.path.join(VERIF, 'coq') + '/', COQ + '/'], check=True)
+os.environ['EMD_COQ_DIR'] = COQ
 PY = '/venv/bin/python'
 GUARD = 'EMD_VERIF_TRACE'
 
@@ -286,7 +293,7 @@ class Ctx:
                          theorem=prop_file)
         with open(os.path.join(VERIF, '.work', '.lock'), 'w') as lk:
             fcntl.flock(lk, fcntl.LOCK_EX)
-            subprocess.run([os.path.join(VERIF, 'tools', 'mkcoqproject.sh')], capture_output=True)
+            subprocess.run([os.path.join(VERIF, 'tools', 'mkcoqproject.sh'), COQ], capture_output=True)
             r = subprocess.run('timeout 1500 make -j16 %s' % (prop_file + 'o'), shell=True, cwd=COQ,
                                capture_output=True, text=True)
         if r.returncode != 0:
